@@ -278,3 +278,45 @@ Proof.
   assert (H2 : ci_equiv (s "iam:*?"%string) (s "iam:?*"%string)) by exact (ci_equiv_star_qm (s "iam:"%string) []).
   split; [repeat constructor; assumption | constructor; exact H1].
 Qed.
+
+(* ---- order laws over the pattern list (Actions/ExpandLattice.v): every catalogue, lists of any length ---- *)
+From PV Require Import Actions.ExpandLattice.
+
+(* the order of the patterns, and repeating some, never changes either result list *)
+Theorem C09_pattern_order_irrelevant : forall cat ps qs, Permutation ps qs ->
+  expand cat ps = expand cat qs /\ expand_not cat ps = expand_not cat qs.
+Proof. exact expand_perm. Qed.
+Print Assumptions C09_pattern_order_irrelevant.
+
+Theorem C09_same_pattern_set_same_expansion : forall cat ps qs, incl ps qs -> incl qs ps ->
+  expand cat ps = expand cat qs /\ expand_not cat ps = expand_not cat qs.
+Proof. exact expand_same_set. Qed.
+Print Assumptions C09_same_pattern_set_same_expansion.
+
+Theorem C09_repeated_list : forall cat ps,
+  expand cat (ps ++ ps) = expand cat ps /\ expand_not cat (ps ++ ps) = expand_not cat ps.
+Proof. exact expand_twice. Qed.
+Print Assumptions C09_repeated_list.
+
+(* adding patterns can only add to Action and only remove from NotAction *)
+Theorem C09_monotone : forall cat ps qs, incl ps qs ->
+  incl (expand cat ps) (expand cat qs) /\ incl (expand_not cat qs) (expand_not cat ps).
+Proof. exact expand_mono. Qed.
+Print Assumptions C09_monotone.
+
+(* a pattern all of whose matches are matched by the rest of the list adds nothing *)
+Theorem C09_absorbed_pattern : forall cat ps p,
+  (forall a, glob_ci p a = true -> exists q, In q ps /\ glob_ci q a = true) ->
+  expand cat (p :: ps) = expand cat ps /\ expand_not cat (p :: ps) = expand_not cat ps.
+Proof. exact expand_absorb. Qed.
+Print Assumptions C09_absorbed_pattern.
+
+(* the empty Action list allows nothing; the empty NotAction list allows the whole catalogue *)
+Theorem C09_empty_lists : forall cat, expand cat [] = [] /\ expand_not cat [] = nodup_sort cat.
+Proof. exact expand_nil. Qed.
+Print Assumptions C09_empty_lists.
+
+Theorem C09_disjoint_under_extension : forall cat ps qs a, incl ps qs ->
+  In a (expand cat ps) -> In a (expand_not cat qs) -> False.
+Proof. exact expand_disjoint_mono. Qed.
+Print Assumptions C09_disjoint_under_extension.
